@@ -1,6 +1,7 @@
 package main
 
 import (
+	"bytes"
 	"encoding/json"
 	"fmt"
 	"math/big"
@@ -26,12 +27,19 @@ type hasherSpec struct {
 	Tag  string `json:"tag,omitempty"`
 	Out  string `json:"out,omitempty"`
 	N    int    `json:"n,omitempty"`
+	// Dirty: bytes written to the (kmac) hasher object before it is handed to Sign / Verify; ComputeHash is
+	// documented not to depend on (nor to change) the streaming state
+	Dirty string `json:"dirty,omitempty"`
 }
 
 func (h hasherSpec) build() hash.Hasher {
 	switch h.Kind {
 	case "kmac":
-		return crypto.NewExpandMsgXOFKMAC128(h.Tag)
+		k := crypto.NewExpandMsgXOFKMAC128(h.Tag)
+		if h.Dirty != "" {
+			_, _ = k.Write(unhx(h.Dirty))
+		}
+		return k
 	case "fixed":
 		return &fixedHasher{unhx(h.Out)}
 	case "size":
@@ -41,12 +49,17 @@ func (h hasherSpec) build() hash.Hasher {
 }
 
 type c01In struct {
-	KeyKind string     `json:"key_kind"` // scalar | generated | aggregated
-	Scalar  string     `json:"scalar,omitempty"`
-	Seed    string     `json:"seed,omitempty"`
-	Parts   []string   `json:"parts,omitempty"`
-	IdPk    bool       `json:"identity_pk,omitempty"`
-	IdSrc   string     `json:"identity_src,omitempty"` // constant | decoded | aggregated | removed
+	KeyKind string   `json:"key_kind"` // scalar | generated | aggregated
+	Scalar  string   `json:"scalar,omitempty"`
+	Seed    string   `json:"seed,omitempty"`
+	Parts   []string `json:"parts,omitempty"`
+	IdPk    bool     `json:"identity_pk,omitempty"`
+	IdSrc   string   `json:"identity_src,omitempty"` // constant | decoded | aggregated | removed
+	// PkRoute: how the (non-identity) public key OBJECT used for verification is obtained from sk:
+	// "" = sk.PublicKey(); decoded | decoded-compressed | agg-single | agg-with-identity | agg-split |
+	// removed | removed-identity | via-encoded-sk
+	PkRoute string     `json:"pk_route,omitempty"`
+	NilMsg  bool       `json:"nil_msg,omitempty"` // pass a nil slice as the message
 	Hasher  hasherSpec `json:"hasher"`
 	Msg     string     `json:"msg"`
 	Derive  []string   `json:"derive"`
@@ -62,7 +75,7 @@ func init() {
 		PropCheck: "prop_bad_ids",
 		Gen:       c01Gen,
 		Run:       c01Run,
-		Rule:      "groups (key, hasher, message) with a list of candidate signature strings: the valid one, single-bit flips, negation, s+T for cofactor-torsion T (random and small order), s+delta with delta in G1, x>=p, all flag combinations, infinity variants, other message/key/tag, lengths 0..200; keys 1, 2, r-1, generated, decoded, aggregated (incl. sums to 0) and the identity public key; KMAC and fixed-output hashers (halves all-0xff, >= p, equal halves, halves congruent mod p, a half 0 or a multiple of p, SSWU exceptional u with Z u^2 = -1, u1 = -u0); every group carries the 128-byte hasher output and the model map_to_G1 of it is compared with H(m) (for KMAC the output itself is recomputed from tag and message); nil and wrong-size hashers. distinct by the full group; non-trivial if at least one candidate has the right length",
+		Rule:      "groups (key, hasher, message) with a list of candidate signature strings: the valid one, single-bit flips, negation, s+T for cofactor-torsion T (random and small order), s+delta with delta in G1, x>=p, all flag combinations, infinity variants, other message/key/tag, lengths 0..200; keys 1, 2, r-1, generated, decoded, aggregated (incl. sums to 0) and the identity public key; KMAC and fixed-output hashers (halves all-0xff, >= p, equal halves, halves congruent mod p, a half 0 or a multiple of p, SSWU exceptional u with Z u^2 = -1, u1 = -u0); every group carries the 128-byte hasher output and the model map_to_G1 of it is compared with H(m) (for KMAC the output itself is recomputed from tag and message); nil and wrong-size hashers (sizes 0, 1, 64, 127, 129, 255, 256, 1024), each also together with every other defect of the call (nil / empty / 47- / 49- / 96-byte, valid and identity signature, identity key from the constant and from the decoder; nil, empty and long message for Sign): the typed hasher error must win (judged by the runner); the verifying key OBJECT through every route (PublicKey(), DecodePublicKey, DecodePublicKeyCompressed, aggregation of one key / with identity keys / of two halves of the scalar, RemoveBLSPublicKeys from an aggregate and of identity keys, re-decoded private key) for generated, r-1 and aggregated keys, each must encode and behave like PublicKey(); empty, 420-byte, multi-byte/NUL tags, nil and empty messages, message lengths around the KMAC rate, a hasher object with pending written bytes; every group also offers the nil signature and the valid signature a second time after the rejected ones; runner-side: Sign repeatable and its earlier result unchanged, message, candidate bytes and hasher streaming state unmodified. distinct by the full group; non-trivial if at least one candidate has the right length",
 		Shard:     3,
 	})
 }
@@ -226,9 +239,47 @@ func c01Gen(tier string, r *rand.Rand) []Case {
 	for _, out := range h2c {
 		mk("hasher-h2c", c01In{KeyKind: "generated", Seed: hx(rbytes(r, 32)), Hasher: hasherSpec{Kind: "fixed", Out: hx(out)}, Msg: "", Derive: []string{"valid", "negated", "infinity", "plusT"}})
 	}
+	// the public key OBJECT obtained through every route the package offers (each constructor fills the
+	// cached identity flag and the point on its own), then USED for verification; keys r-1, generated and
+	// aggregated
+	routes := []string{"decoded", "decoded-compressed", "agg-single", "agg-with-identity", "agg-split", "removed", "removed-identity", "via-encoded-sk"}
+	for i, rt := range routes {
+		in := c01In{KeyKind: "generated", Seed: hx(rbytes(r, 32)), PkRoute: rt, Hasher: hasherSpec{Kind: "kmac", Tag: "route"},
+			Msg: hx(rbytes(r, 1+r.IntN(40))), Derive: []string{"valid", "negated", "plusT", "otherkey", "infinity"}}
+		switch i % 4 {
+		case 1:
+			in.KeyKind, in.Seed, in.Scalar = "scalar", "", hx(fixed(rm1, 32))
+		case 2:
+			in.KeyKind, in.Seed, in.Parts = "aggregated", "", []string{hx(fixed(a, 32)), hx(fixed(b, 32)), hx(fixed(a, 32))}
+		}
+		mk("pk-route", in)
+	}
+	// domain tags and messages at the edges: empty tag, a tag longer than two KMAC rate blocks, a tag with
+	// multi-byte and NUL characters, nil / empty message, message lengths around the KMAC rate (168) and
+	// around rate minus the 3-byte right_encode trailer; a hasher object with pending written bytes
+	// (ComputeHash is documented to be independent of the streaming state)
+	longTag := strings.Repeat("flow-long-domain-tag/", 20)
+	type tm struct {
+		tag    string
+		msg    []byte
+		nilMsg bool
+		dirty  []byte
+	}
+	tms := []tm{{"", []byte("empty tag"), false, nil}, {longTag, rbytes(r, 10), false, nil}, {"t\u00e9\u0000g", rbytes(r, 165), false, nil},
+		{"rate", rbytes(r, 168), false, nil}, {"rate", nil, true, nil}, {"", nil, true, nil}, {"dirty", rbytes(r, 20), false, rbytes(r, 50)}}
+	if thorough {
+		for _, l := range []int{164, 166, 167, 169, 335, 336, 337, 4096} {
+			tms = append(tms, tm{"rate", rbytes(r, l), false, nil})
+		}
+		tms = append(tms, tm{"dirty", rbytes(r, 168), false, rbytes(r, 168)}, tm{longTag + longTag, nil, true, rbytes(r, 1)})
+	}
+	for _, t := range tms {
+		mk("tag-msg-edge", c01In{KeyKind: "generated", Seed: hx(rbytes(r, 32)), Hasher: hasherSpec{Kind: "kmac", Tag: t.tag, Dirty: hx(t.dirty)},
+			Msg: hx(t.msg), NilMsg: t.nilMsg, Derive: []string{"valid", "othermsg", "othertag", "infinity"}})
+	}
 	// hasher guards
 	mk("hasher-nil", c01In{KeyKind: "scalar", Scalar: hx(fixed(big.NewInt(9), 32)), Hasher: hasherSpec{Kind: "nil"}, Msg: "00"})
-	for _, sz := range []int{0, 1, 127, 129, 256} {
+	for _, sz := range []int{0, 1, 64, 127, 129, 255, 256, 1024} {
 		mk("hasher-size", c01In{KeyKind: "scalar", Scalar: hx(fixed(big.NewInt(9), 32)), Hasher: hasherSpec{Kind: "size", N: sz}, Msg: "00"})
 	}
 	return cs
@@ -278,6 +329,58 @@ func c01Key(in c01In) (crypto.PrivateKey, *big.Int, error) {
 	return nil, nil, fmt.Errorf("unknown key kind")
 }
 
+// c01RoutePk builds a public key object for the private key sk (scalar != 0) through the named route.
+func c01RoutePk(route string, sk crypto.PrivateKey, scalar *big.Int, rr *rand.Rand) (crypto.PublicKey, error) {
+	base := sk.PublicKey()
+	idDec, err := crypto.DecodePublicKey(crypto.BLSBLS12381, crypto.IdentityBLSPublicKey().Encode())
+	if err != nil {
+		return nil, err
+	}
+	switch route {
+	case "decoded":
+		return crypto.DecodePublicKey(crypto.BLSBLS12381, base.Encode())
+	case "decoded-compressed":
+		return crypto.DecodePublicKeyCompressed(crypto.BLSBLS12381, base.EncodeCompressed())
+	case "agg-single":
+		return crypto.AggregateBLSPublicKeys([]crypto.PublicKey{base})
+	case "agg-with-identity":
+		return crypto.AggregateBLSPublicKeys([]crypto.PublicKey{crypto.IdentityBLSPublicKey(), base, idDec})
+	case "agg-split":
+		for {
+			x := new(big.Int).Mod(new(big.Int).SetBytes(rbytes(rr, 40)), blsR)
+			y := new(big.Int).Mod(new(big.Int).Sub(scalar, x), blsR)
+			if x.Sign() == 0 || y.Sign() == 0 {
+				continue
+			}
+			kx, e1 := crypto.DecodePrivateKey(crypto.BLSBLS12381, fixed(x, 32))
+			ky, e2 := crypto.DecodePrivateKey(crypto.BLSBLS12381, fixed(y, 32))
+			if e1 != nil || e2 != nil {
+				return nil, fmt.Errorf("agg-split: %v %v", e1, e2)
+			}
+			return crypto.AggregateBLSPublicKeys([]crypto.PublicKey{kx.PublicKey(), ky.PublicKey()})
+		}
+	case "removed":
+		k2, err := crypto.GeneratePrivateKey(crypto.BLSBLS12381, rbytes(rr, 32))
+		if err != nil {
+			return nil, err
+		}
+		ag, err := crypto.AggregateBLSPublicKeys([]crypto.PublicKey{k2.PublicKey(), base})
+		if err != nil {
+			return nil, err
+		}
+		return crypto.RemoveBLSPublicKeys(ag, []crypto.PublicKey{k2.PublicKey()})
+	case "removed-identity":
+		return crypto.RemoveBLSPublicKeys(base, []crypto.PublicKey{idDec, crypto.IdentityBLSPublicKey()})
+	case "via-encoded-sk":
+		sk2, err := crypto.DecodePrivateKey(crypto.BLSBLS12381, sk.Encode())
+		if err != nil {
+			return nil, err
+		}
+		return sk2.PublicKey(), nil
+	}
+	return nil, fmt.Errorf("unknown pk route %q", route)
+}
+
 func c01Run(c Case) (Result, error) {
 	var in c01In
 	if err := json.Unmarshal(c.Input, &in); err != nil {
@@ -304,14 +407,49 @@ func c01Run(c Case) (Result, error) {
 			return Result{}, err
 		}
 	}
+	if in.PkRoute != "" && !in.IdPk {
+		pk, err = c01RoutePk(in.PkRoute, sk, scalar, rr)
+		if err != nil {
+			return Result{}, implViolation("public key through route %s: %v", in.PkRoute, err)
+		}
+		if !bytes.Equal(pk.Encode(), sk.PublicKey().Encode()) || !pk.Equals(sk.PublicKey()) || !sk.PublicKey().Equals(pk) {
+			return Result{}, implViolation("public key through route %s is %x, PublicKey() of the private key is %x (Equals: %v)", in.PkRoute, pk.Encode(), sk.PublicKey().Encode(), pk.Equals(sk.PublicKey()))
+		}
+	}
 	hs := in.Hasher.build()
 	msg := unhx(in.Msg)
+	if in.NilMsg {
+		msg = nil
+	}
 	if in.Hasher.Kind == "nil" || in.Hasher.Kind == "size" {
 		_, errS := sk.Sign(msg, hs)
 		okV, errV := pk.Verify(make([]byte, 48), msg, hs)
 		size := -1
 		if in.Hasher.Kind == "size" {
 			size = in.Hasher.N
+		}
+		// the hasher error is documented unconditionally: it must win over every other defect of the call
+		// (wrong-length / nil / malformed signature, identity public key from any constructor)
+		want := verdictClass(okV, errV)
+		k5, _ := crypto.DecodePrivateKey(crypto.BLSBLS12381, fixed(big.NewInt(5), 32))
+		goodSig, _ := k5.Sign(msg, crypto.NewExpandMsgXOFKMAC128("x"))
+		idDec, _ := crypto.DecodePublicKey(crypto.BLSBLS12381, crypto.IdentityBLSPublicKey().Encode())
+		for pi, p := range []crypto.PublicKey{pk, crypto.IdentityBLSPublicKey(), idDec} {
+			for _, sg := range [][]byte{nil, {}, make([]byte, 47), goodSig, append([]byte{0xC0}, make([]byte, 47)...), make([]byte, 49), make([]byte, 96)} {
+				var ok bool
+				var e error
+				if pn, m := catch(func() { ok, e = p.Verify(sg, msg, hs) }); pn {
+					return Result{}, implViolation("Verify panics with hasher %+v, key #%d, signature %x: %s", in.Hasher, pi, sg, m)
+				}
+				if got := verdictClass(ok, e); got != want || ok {
+					return Result{}, implViolation("Verify with hasher %+v, key #%d (0 = regular, 1/2 = identity), signature %x (%d bytes): %s, but %s with a 48-byte zero signature under the regular key", in.Hasher, pi, sg, len(sg), got, want)
+				}
+			}
+		}
+		for _, m := range [][]byte{nil, {}, make([]byte, 500)} {
+			if sg, e := sk.Sign(m, hs); verdictClass(false, e) != verdictClass(false, errS) || sg != nil {
+				return Result{}, implViolation("Sign with hasher %+v on a %d-byte message: (%x, %v), but %v on the case message", in.Hasher, len(m), sg, e, errS)
+			}
 		}
 		term := fmt.Sprintf("HasherCase (%d)%%Z %s %s", size, cqs(verdictClass(false, errS)), cqs(verdictClass(okV, errV)))
 		return Result{Coq: term, Key: string(c.Input), Nontrivial: true, Obs: map[string]any{"sign": verdictClass(false, errS), "verify": verdictClass(okV, errV)}}, nil
@@ -321,10 +459,15 @@ func c01Run(c Case) (Result, error) {
 	if err != nil {
 		return Result{}, err
 	}
+	var sum0 []byte
+	if in.Hasher.Kind == "kmac" {
+		sum0 = hs.SumHash()
+	}
 	valid, err := sk.Sign(msg, hs)
 	if err != nil {
 		return Result{}, err
 	}
+	validCopy, msgCopy := append([]byte{}, valid...), append([]byte{}, msg...)
 	type cand struct {
 		Fam   string `json:"fam"`
 		Bytes string `json:"bytes"`
@@ -335,8 +478,13 @@ func c01Run(c Case) (Result, error) {
 	add := func(fam string, b []byte) {
 		var ok bool
 		var e error
+		bc := append([]byte{}, b...)
 		if p, m := catch(func() { ok, e = pk.Verify(b, msg, hs) }); p {
 			cands = append(cands, cand{fam, hx(b), "panic:" + m})
+			return
+		}
+		if !bytes.Equal(b, bc) {
+			cands = append(cands, cand{fam, hx(bc), "signature-argument-modified"})
 			return
 		}
 		if len(b) == 48 {
@@ -425,6 +573,22 @@ func c01Run(c Case) (Result, error) {
 	}
 	for _, raw := range in.Raw {
 		add("raw", unhx(raw))
+	}
+	if len(in.Derive) > 0 {
+		add("nil-signature", nil)
+		// the valid signature once more after all the rejected candidates (verification keeps no state)
+		add("valid-again", valid)
+	}
+	// results are values and arguments are read only: the signature returned first is still what Sign
+	// returns now, the message and (for the library's hasher) the hasher's streaming state are untouched
+	if again, e := sk.Sign(msg, hs); e != nil || !bytes.Equal(again, validCopy) || !bytes.Equal(valid, validCopy) {
+		return Result{}, implViolation("Sign is not repeatable / its earlier result changed: first %x, held slice now %x, second call %x (%v)", validCopy, valid, again, e)
+	}
+	if !bytes.Equal(msg, msgCopy) || (in.NilMsg && msg != nil) {
+		return Result{}, implViolation("Sign / Verify modified the message argument")
+	}
+	if sum0 != nil && !bytes.Equal(sum0, hs.SumHash()) {
+		return Result{}, implViolation("Sign / Verify changed the streaming state of the hasher (documented read only for the library's KMAC hasher)")
 	}
 	var items []string
 	for _, cd := range cands {
